@@ -349,8 +349,7 @@ def engine_readbuf(tier, seed):
     if tier == 'thorough':
         parts.append(engine_cases('readbuf_c4', 'MC_ReadBufEdit', READBUF_CFG % (4, 2), 'replay_readbuf', tier, seed,
                                   model='ReadBufEdit', cfg_name='readbuf_c4d2', timeout=3000))
-        parts.append(engine_cases('readbuf_c2d3', 'MC_ReadBufEdit', READBUF_CFG % (2, 3), 'replay_readbuf', tier, seed,
-                                  model='ReadBufEdit', cfg_name='readbuf_c2d3', timeout=3000))
+        # (capacity 2, depth 3 enumerates 7.2 million cases, 3 GB of text: not worth its cost.)
     res = merge_results('readbuf', parts)
     for d in res['divergences']:
         d['tag'] = d.get('tag') or 'C15'
